@@ -107,6 +107,9 @@ class Repeater:
                 setattr(self, key, value)
             elif value is not None:
                 self.attr(key, value)
+            elif key in self.__attrs:
+                # None can not be stored (attr(key, None) reads), patching with None takes the attribute away
+                self.delete_attr(key)
         return self
 
     def read_snmp_values(
